@@ -67,14 +67,17 @@ ALGOS = [
     ('circuit', 'evaluate_full_circuit'), ('circuit', 'evaluate_circuit'), ('circuit', 'evaluate_circuit_outputs'),
     ('circuit', 'evaluate'), ('circuit', 'evaluate_at'), ('circuit', 'get_truth_table'),
     ('circuit', 'make_block_from_slice'),
+    ('circuit', 'get_gates_truth_table'), ('circuit', 'format_circuit'), ('circuit', 'into_bench'),
 ]
 
 COQ_TY.update({
     'labeldict': 'dict label', 'intdict': 'dict Z', 'stdict': 'dict st', 'st': 'st', 'sts': 'list st',
     'stss': 'list (list st)', 'bools': 'list bool', 'boolvecs': 'list (list bool)',
     'enumpairs': 'list (nat * label)', 'labelpairs': 'list (label * label)', 'intpairs': 'list (label * Z)',
-    'stpairs': 'list (label * st)',
+    'stpairs': 'list (label * st)', 'stsdict': 'dict (list st)', 'labelsdict': 'dict (list label)',
+    'ddict?': '?', 'strings': 'list string',
 })
+DDICT_OF = {'st': 'stsdict', 'label': 'labelsdict'}
 LOCAL_DICT = {'labeldict': 'label', 'intdict': 'int', 'stdict': 'st'}
 DICT_OF = {v: k for k, v in LOCAL_DICT.items()}
 DICT_ITEMS = {'labeldict': 'labelpairs', 'intdict': 'intpairs', 'stdict': 'stpairs'}
@@ -97,7 +100,9 @@ HEADER = '''(* GENERATED by translator/t10_circuit_algos.py from cirbo/core/circ
      `set_to_list self s` = the elements of s that are gates of self, in the order of the gate map of self,
      followed by the others (hand-model convention; Python's order is the hash order of the strings). *)
 Require Import Cirbo.Model.Base Cirbo.Model.Gate Cirbo.Model.Circuit Cirbo.Model.Traverse Cirbo.Model.Eval.
+Require Import Cirbo.Model.Connect.
 Require Import Cirbo.Generated.Operators Cirbo.Generated.GateTypes Cirbo.Generated.CircuitCore.
+Require Cirbo.Generated.BenchDispatch Cirbo.Generated.Converters.
 
 (* fixed prelude (not derived from the source): Python primitives *)
 Definition list_pop {A} (l : list A) : res (A * list A) :=                       (* l.pop() *)
@@ -119,6 +124,21 @@ Fixpoint filterM {A} (f : A -> res bool) (l : list A) : res (list A) :=         
 (* g.operator : the operator of the gate's type; INPUT has none *)
 Definition gate_operator (g : gate) : res gtype :=
   if gtype_beq (gtyp g) INPUT then Err GateTypeNoOperatorError else Ok (gtyp g).
+(* collections.defaultdict(list): d[k].append(v) creates the key on first use *)
+Definition ddict_append {V} (d : dict (list V)) (k : label) (v : V) : dict (list V) :=
+  match dget d k with Some l => dset d k (l ++ [v]) | None => dset d k [v] end.
+Definition nl : string := String (Ascii.ascii_of_nat 10) EmptyString.            (* "\n" *)
+(* convert_gate(g, circuit) of converters.py is regenerated by translator T6 (Generated/Converters.v:
+   generated_convert_gate); the rules that call uuid.uuid4() (generated_needs_fresh) consume the next element of
+   the stream `fresh` of uuid4().hex values *)
+Definition convert_gate_fresh (c : circuit) (fresh : list string) (l : label) (g : gate)
+  : res (circuit * list string) :=
+  if Converters.generated_needs_fresh (gtyp g) then
+    match fresh with
+    | f :: fr => do c' <- Converters.generated_convert_gate c l g f; Ok (c', fr)
+    | [] => Err OutOfFuel
+    end
+  else do c' <- Converters.generated_convert_gate c l g ""; Ok (c', fresh).
 (* zip( *rows ): as many tuples as the shortest row has elements; none when there are no rows *)
 Definition zip_star (rows : list (list st)) : list (list st) :=
   match rows with
@@ -133,6 +153,22 @@ def coq_string(s):
     if not all(32 <= ord(ch) < 127 for ch in s):
         raise TranslatorError(f'string literal {s!r} outside grammar')
     return '"' + s.replace('"', '""') + '"'
+
+
+def coq_str_expr(s):
+    """a Python string constant as a Coq term (newlines via the prelude constant nl)"""
+    parts = s.split('\n')
+    terms = []
+    for i, part in enumerate(parts):
+        if i:
+            terms.append('nl')
+        if part:
+            terms.append(coq_string(part))
+    if not terms:
+        return '""'
+    if len(terms) == 1:
+        return terms[0]
+    return '(' + ' ++ '.join(terms) + ')%string'
 
 
 def is_ident(code):
@@ -369,6 +405,8 @@ class AlgoTr(FnTr):
             if needs_label:
                 out.append(f'({code}_label : label)')
             out.append(f'({code} : {COQ_TY[ty]})')
+        if getattr(self.fn, 'uses_fresh', False):
+            out.append('(fresh : list string)')
         return ' '.join(out)
 
     # ------------------------------------------------------------ aliases of a second circuit
@@ -399,10 +437,18 @@ class AlgoTr(FnTr):
             c = (c[0], c[1], f.value)
         return c
 
+    def is_convert_gate(self, call, env):
+        f = call.func
+        return (isinstance(f, ast.Name) and f.id == 'convert_gate' and f.id not in env and self.impkey == 'circuit'
+                and self.u.imports['circuit'].get('convert_gate') == ('cirbo.core.circuit.converters', 'convert_gate'))
+
     def modset(self, stmts, env):
         out = super().modset(stmts, env)
         for st in stmts:
             for n in ast.walk(st):
+                if isinstance(n, ast.Call) and self.is_convert_gate(n, env):
+                    out.add('<fresh>')
+                    out.add(self.self_py)
                 if isinstance(n, ast.Yield):
                     out.add('<yield>')
                 if isinstance(n, ast.AugAssign):
@@ -463,7 +509,20 @@ class AlgoTr(FnTr):
 
     def expr(self, node, env, pre):
         if isinstance(node, ast.Constant) and isinstance(node.value, str):
-            return Val(coq_string(node.value), 'label')
+            return Val(coq_str_expr(node.value), 'label')
+        if isinstance(node, ast.JoinedStr):
+            terms = []
+            for part in node.values:
+                if isinstance(part, ast.Constant) and isinstance(part.value, str):
+                    if part.value:
+                        terms.append(coq_str_expr(part.value))
+                elif isinstance(part, ast.FormattedValue) and part.conversion == -1 and part.format_spec is None:
+                    terms.append(self.typed(part.value, env, pre, 'label'))
+                else:
+                    fail(node, 'f-string part outside grammar')
+            if not terms:
+                return Val('""', 'label')
+            return Val(terms[0] if len(terms) == 1 else '(' + ' ++ '.join(terms) + ')%string', 'label')
         if isinstance(node, ast.Name) and node.id == 'Undefined' and 'Undefined' not in env:
             return Val('U', 'st')
         if isinstance(node, ast.UnaryOp) and isinstance(node.op, ast.Not):
@@ -742,9 +801,39 @@ class AlgoTr(FnTr):
             return Val(v.code, v.ty)                # a copy
         if self.is_module_attr(f, 'copy', 'copy', env) and len(node.args) == 1 and plain:
             v = self.expr(node.args[0], env, pre)
-            if v.ty not in LOCAL_DICT and v.ty != 'labels':
+            if v.ty not in LOCAL_DICT and v.ty not in ('labels', 'gatedict'):
                 fail(node, 'copy.copy(...) outside grammar')
-            return Val(v.code, v.ty)                # a (shallow) copy of a dict / list of strings
+            return Val(v.code, v.ty)                # a (shallow) copy of a dict / list of strings (Gates are immutable)
+        # '<sep>'.join(<strings>)
+        if isinstance(f, ast.Attribute) and f.attr == 'join' and isinstance(f.value, ast.Constant) \
+                and isinstance(f.value.value, str) and len(node.args) == 1 and plain:
+            a = node.args[0]
+            v = self.comprehension(a, env, pre) if isinstance(a, ast.GeneratorExp) else self.expr(a, env, pre)
+            if v.ty != 'labels':
+                fail(node, 'join of something that is not a list of strings')
+            return Val(f'(String.concat {coq_str_expr(f.value.value)} {self.atom(v)})', 'label')
+        # g.format_gate(): Gate.format_gate is regenerated by translator T7 (Generated/BenchDispatch.v)
+        if isinstance(f, ast.Attribute) and f.attr == 'format_gate' and not node.args and plain:
+            g = self.expr(f.value, env, pre)
+            if g.ty != 'gate' or g.label is None:
+                fail(node, 'format_gate of a gate whose label is not known')
+            if self.u.methods_of('Gate').get('format_gate') is None:
+                fail(node, 'Gate.format_gate not found')
+            return Val(f'(BenchDispatch.format_gate {g.label} {self.atom(g)})', 'label')
+        # zip(<labels>, <bools>)
+        if builtin and f.id == 'zip' and len(node.args) == 2 and plain \
+                and not any(isinstance(a, ast.Starred) for a in node.args):
+            a = self.typed_val(node.args[0], env, pre, 'labels')
+            b = self.expr(node.args[1], env, pre)
+            if b.ty == 'bools':
+                return Val(f'(combine {self.atom(a)} (map inj {self.atom(b)}))', 'stpairs')
+            if b.ty == 'sts':
+                return Val(f'(combine {self.atom(a)} {self.atom(b)})', 'stpairs')
+            fail(node, 'zip(...) outside grammar')
+        # collections.defaultdict(list)
+        if self.is_module_attr(f, 'collections', 'defaultdict', env) and plain and len(node.args) == 1 \
+                and isinstance(node.args[0], ast.Name) and node.args[0].id == 'list' and 'list' not in env:
+            return Val('[]', 'ddict?')
         if self.is_module_attr(f, 'tp', 'cast', env) and len(node.args) == 2 and plain:
             return self.expr(node.args[1], env, pre)
         if self.is_module_attr(f, 'itertools', 'product', env):
@@ -844,6 +933,8 @@ class AlgoTr(FnTr):
 
     def call_code(self, c, node, env, pre):
         code, callee = super().call_code(c, node, env, pre)
+        if getattr(callee, 'uses_fresh', False):
+            fail(node, 'call of a function that consumes uuid values')
         n = len(getattr(callee, 'fuel_names', []))
         if n:
             fuels = self.alloc_fuel(node, n)
@@ -1029,6 +1120,16 @@ class AlgoTr(FnTr):
                 fail(s, 'loop with a tuple target must iterate enumerate(L) or d.items()')
             xc, _ = self.bind_target(s.target, it, env, s)
             return self.fold_loop(s, env, kr, pre, it, xc, lambda: self.bind_target(s.target, it, env, s)[1])
+        if not s.orelse and isinstance(s.target, ast.Name):
+            save = self.tmp
+            probe = self.iter_val(s.iter, env, [])
+            self.tmp = save
+            if probe.ty in ('boolvecs', 'stss'):
+                self.check_loop_body(s)
+                pre = []
+                it = self.iter_val(s.iter, env, pre)
+                xc, _ = self.bind_target(s.target, it, env, s)
+                return self.fold_loop(s, env, kr, pre, it, xc, lambda: self.bind_target(s.target, it, env, s)[1])
         return super().for_(s, env, kr)
 
     # ---- assignments
@@ -1070,7 +1171,7 @@ class AlgoTr(FnTr):
             pre = []
             v = self.expr(val, env, pre)
             if v.ty in LOCAL_DICT or v.ty == 'labelset' or (v.ty == 'label' and name in env) \
-                    or v.ty in ('st', 'sts', 'stss', 'bool'):
+                    or v.ty in ('st', 'sts', 'stss', 'bool', 'ddict?', 'gatedict'):
                 if name in env:
                     old = env[name]
                     if not (old.kind == 'local' and old.ty == v.ty == 'label'):
@@ -1081,7 +1182,9 @@ class AlgoTr(FnTr):
                                           or (o.label and re.search(rf'\b{re.escape(old.code)}\b', o.label))):
                             fail(s, f'{name} is rebound while {m} depends on it')
                 fresh = not v.alias and self.is_fresh_value(val, env)
-                kind = 'mutlocal' if fresh and (v.ty in LOCAL_DICT or v.ty == 'labelset') else 'local'
+                kind = 'mutlocal' if fresh and (v.ty in LOCAL_DICT or v.ty in ('labelset', 'ddict?')) else 'local'
+                if v.ty == 'gatedict' and not (self.is_module_attr(getattr(val, 'func', None), 'copy', 'copy', env)):
+                    fail(s, 'a local gate dict must be a copy.copy(...) snapshot')
                 env2 = dict(env)
                 env2[name] = Var(code, v.ty, kind, v.alias, v.label)
                 return '\n'.join(self.emit_pre(pre) + [f'let {code} := {v.code} in', kr.emit(env2)])
@@ -1112,7 +1215,7 @@ class AlgoTr(FnTr):
             f = node.func
             if isinstance(f, ast.Name) and f.id in ('dict', 'set') and f.id not in env:
                 return True
-            if self.is_module_attr(f, 'copy', 'copy', env):
+            if self.is_module_attr(f, 'copy', 'copy', env) or self.is_module_attr(f, 'collections', 'defaultdict', env):
                 return True
             c = self.callee_of(node, env)
             return c is not None and not c[1].ret_alias and c[1].ret_fresh
@@ -1147,6 +1250,41 @@ class AlgoTr(FnTr):
     # ---- statements that are calls
     def call_stmt(self, call, env, kr):
         f = call.func
+        # d[k].append(v) on a collections.defaultdict(list)
+        if isinstance(f, ast.Attribute) and f.attr == 'append' and isinstance(f.value, ast.Subscript) \
+                and isinstance(f.value.value, ast.Name) and f.value.value.id in env \
+                and env[f.value.value.id].ty in ('ddict?', 'stsdict', 'labelsdict') and len(call.args) == 1 \
+                and not call.keywords:
+            d = self.lookup(f.value.value, env)
+            if d.kind != 'mutlocal':
+                fail(call, 'append through a dict that is not a local defaultdict')
+            pre = []
+            k = self.typed(f.value.slice, env, pre, 'label')
+            v = self.expr(call.args[0], env, pre)
+            if v.ty not in DDICT_OF:
+                fail(call, f'defaultdict(list) of {v.ty}')
+            if d.ty == 'ddict?':
+                d.ty = DDICT_OF[v.ty]          # the element type is fixed by the first append
+            if d.ty != DDICT_OF[v.ty]:
+                fail(call, 'defaultdict(list) with elements of two types')
+            return '\n'.join(self.emit_pre(pre) + [f'let {d.code} := ddict_append {d.code} {k} {self.atom(v)} in',
+                                                   kr.emit(env)])
+        # convert_gate(g, self) of converters.py
+        if self.is_convert_gate(call, env):
+            if len(call.args) != 2 or call.keywords or '<fresh>' not in env:
+                fail(call, 'convert_gate call outside grammar')
+            pre = []
+            g = self.expr(call.args[0], env, pre)
+            st = call.args[1]
+            if g.ty != 'gate' or g.label is None or not (isinstance(st, ast.Name) and st.id in env
+                                                       and env[st.id].kind == 'self'):
+                fail(call, 'convert_gate must be called as convert_gate(<gate of known label>, self)')
+            for comp in ('inputs', 'outputs', 'gates', 'users', 'users.content', 'blocks', 'blocks.content'):
+                self.effect(comp, env)
+            sc, fc = env[self.self_py].code, env['<fresh>'].code
+            return '\n'.join(self.emit_pre(pre)
+                             + [f'do ({sc}, {fc}) <- convert_gate_fresh {sc} {fc} {g.label} {self.atom(g)};',
+                                kr.emit(env)])
         if isinstance(f, ast.Attribute) and isinstance(f.value, ast.Name) and f.value.id in env \
                 and env[f.value.id].kind == 'mutlocal' and not call.keywords:
             v = self.lookup(f.value, env)
@@ -1191,6 +1329,11 @@ class AlgoTr(FnTr):
             fwd = [k.value for n in ast.walk(f) if isinstance(n, ast.Call) for k in n.keywords if k.arg is None]
             if any(u not in fwd for u in uses):
                 fail(f, '**kwargs may only be forwarded')
+        fn.uses_fresh = any(isinstance(n, ast.Call) and self.is_convert_gate(n, env) for n in ast.walk(f))
+        if fn.uses_fresh:
+            if self.is_gen or self.builder or self.outer is not None:
+                fail(f, 'convert_gate in this kind of function')
+            env['<fresh>'] = Var('fresh', 'strings', 'mutlocal')
         ms = self.modset(body, env)
         fn.mutates = self.self_py in ms or bool(self.builder)
         if fn.mutates and not self.self_writable:
